@@ -101,8 +101,10 @@ def misaligned : Tree := assignRoot (some 1) (consistLoco .ConventionalLoco)
 
 theorem C19_unaligned_intervals_counterexample :
     wfSave false misaligned = true ∧
-    (dump (saveT 1 misaligned)).map (fun l => (l.splitOn " ").drop 1) =
-      [["1", "S", "1", "[", "1", "1"], ["1", "N", "[", "0"], ["1", "N", "[", "0"], ["1", "N", "[", "0"]] := by
+    -- (has a history?, interval, i-column) of every node after ONE `save_state()` at i = 1
+    (nodes (saveT 1 misaligned)).map (fun x => (x.1.hasHist, x.2.2.1, x.2.2.2)) =
+      [(true, some 1, [1]), (false, none, []), (false, none, []),
+       (true, none, []), (true, none, []), (true, none, [])] := by
   decide
 
 /-! ## Part B — obligations on the regenerated tables -/
@@ -121,7 +123,7 @@ theorem consistLoco_wf (v : Variant) :
     freshB 1 (consistLoco v) = true := by
   cases v <;> refine ⟨by decide, fun g => by cases g <;> decide, by decide, by decide⟩
 
-/-- the consist of ANY composition -/
+/-- the consist of ANY composition, under any caller -/
 theorem consist_wf (nm : String) (tag sc so si st : Nat) (vs : List Variant) :
     wfStep (consistWith nm tag sc so si st vs) = true ∧
     (∀ g, wfSave g (consistWith nm tag sc so si st vs) = true) ∧
@@ -129,14 +131,15 @@ theorem consist_wf (nm : String) (tag sc so si st : Nat) (vs : List Variant) :
     (AllT (PI 1) (consistWith nm tag sc so si st vs) ∧ AllT (PH []) (consistWith nm tag sc so si st vs)) := by
   refine ⟨?_, fun g => ?_, ?_, ?_, ?_⟩
   · simp only [consistWith, wfStep, Bool.and_eq_true]
-    exact ⟨by decide, wfStepL_map _ (fun v => (consistLoco_wf v).1) vs⟩
-  · simp only [consistWith, wfSave, Bool.and_eq_true]
-    refine ⟨by cases g <;> decide, ?_⟩
+    exact ⟨rfl, wfStepL_map _ (fun v => (consistLoco_wf v).1) vs⟩
+  · simp only [consistWith, wfSave]
+    rw [Bool.and_eq_true]
+    refine ⟨by cases g <;> rfl, ?_⟩
     cases g
     · exact wfSaveL_map _ _ _ _ (fun v => by simpa using (consistLoco_wf v).2.1 false) vs
     · exact wfSaveL_map _ _ _ _ (fun v => by simpa using (consistLoco_wf v).2.1 true) vs
   · simp only [consistWith, wfSet, Bool.and_eq_true]
-    exact ⟨by decide, wfSetL_map _ _ _ (fun v => (consistLoco_wf v).2.2.1) vs⟩
+    exact ⟨rfl, wfSetL_map _ _ _ (fun v => (consistLoco_wf v).2.2.1) vs⟩
   · simp only [consistWith, AllT]
     exact ⟨fun _ => rfl, AllL_map _ _ (fun v => (freshB_sound 1 _ (consistLoco_wf v).2.2.2).1) vs⟩
   · simp only [consistWith, AllT]
@@ -150,6 +153,13 @@ theorem locoSim_wf (v : Variant) :
 theorem shape_loco_eq (vs : List Variant) : shape .loco vs = shape .loco [vs.headD .ConventionalLoco] := by
   cases vs <;> rfl
 
+/-- splits `k ∈ [a]` / `k ∈ [a, b]` into the cases `k = a`, `k = b` -/
+macro "kid_cases " h:ident : tactic =>
+  `(tactic| (simp only [List.mem_cons, List.not_mem_nil, or_false] at $h:ident
+             first
+               | subst $h:ident
+               | (rcases $h:ident with h1 | h1 <;> subst h1)))
+
 /-- **every simulation kind, every consist composition**: the call tables are well-formed and the fresh
     object has all counters at 1 and no rows -/
 theorem shape_wf (kind : Kind) (vs : List Variant) :
@@ -160,31 +170,35 @@ theorem shape_wf (kind : Kind) (vs : List Variant) :
     exact ⟨h.1, freshB_sound 1 _ h.2⟩
   all_goals
     simp only [shape]
-    refine ⟨⟨?_, ?_, ?_⟩, ?_, ?_⟩
-    · simp only [wfStep, wfStepL, Bool.and_eq_true, Bool.or_eq_true]
-      refine ⟨by decide, ?_⟩
-      first
-        | exact ⟨Or.inl ⟨by simp [consistWith, Tree.info], (consist_wf _ _ _ _ _ _ vs).1⟩, rfl⟩
-        | exact ⟨Or.inl ⟨by simp [consistWith, Tree.info], (consist_wf _ _ _ _ _ _ vs).1⟩, by decide, rfl⟩
-    · simp only [wfSave, wfSaveL, Bool.and_eq_true, Bool.or_eq_true]
-      refine ⟨by decide, ?_⟩
-      first
-        | exact ⟨Or.inl (Or.inl ⟨by simp [consistWith, Tree.info], (consist_wf _ _ _ _ _ _ vs).2.1 _⟩), rfl⟩
-        | exact ⟨Or.inl (Or.inr ⟨by simp [consistWith, Tree.info], (consist_wf _ _ _ _ _ _ vs).2.1 _⟩), rfl⟩
-        | exact ⟨Or.inl (Or.inr ⟨by simp [consistWith, Tree.info], (consist_wf _ _ _ _ _ _ vs).2.1 _⟩), by decide, rfl⟩
-    · simp only [wfSet, wfSetL, Bool.and_eq_true]
-      refine ⟨by decide, ?_⟩
-      first
-        | exact ⟨by simpa [consistWith, Tree.info, strip, setDeepNext] using (consist_wf _ _ _ _ _ _ vs).2.2.1, rfl⟩
-        | exact ⟨by simpa [consistWith, Tree.info, strip, setDeepNext] using (consist_wf _ _ _ _ _ _ vs).2.2.1, by decide, rfl⟩
-    · simp only [AllT, AllL]
-      first
-        | exact ⟨fun _ => rfl, (consist_wf _ _ _ _ _ _ vs).2.2.2.1, trivial⟩
-        | exact ⟨fun _ => rfl, (consist_wf _ _ _ _ _ _ vs).2.2.2.1, ⟨fun _ => rfl, trivial⟩, trivial⟩
-    · simp only [AllT, AllL]
-      first
-        | exact ⟨fun _ => rfl, (consist_wf _ _ _ _ _ _ vs).2.2.2.2, trivial⟩
-        | exact ⟨fun _ => rfl, (consist_wf _ _ _ _ _ _ vs).2.2.2.2, ⟨fun _ => rfl, trivial⟩, trivial⟩
+    refine ⟨⟨wfStep_node (by decide) ?_, wfSave_node (by decide) ?_, wfSet_node (by decide) ?_⟩,
+      AllT_node (fun _ => rfl) ?_, AllT_node (fun _ => rfl) ?_⟩
+    · intro k hk
+      kid_cases hk
+      all_goals first
+        | exact Or.inl ⟨rfl, (consist_wf _ _ _ _ _ _ vs).1⟩
+        | exact Or.inl ⟨rfl, by decide⟩
+    · intro k hk
+      kid_cases hk
+      all_goals first
+        | exact Or.inl ⟨rfl, rfl, (consist_wf _ _ _ _ _ _ vs).2.1 _⟩
+        | exact Or.inr (Or.inl ⟨rfl, rfl, rfl, (consist_wf _ _ _ _ _ _ vs).2.1 _⟩)
+        | exact Or.inl ⟨rfl, rfl, by decide⟩
+        | exact Or.inr (Or.inl ⟨rfl, rfl, rfl, by decide⟩)
+    · intro k hk
+      kid_cases hk
+      all_goals first
+        | exact (consist_wf _ _ _ _ _ _ vs).2.2.1
+        | decide
+    · intro k hk
+      kid_cases hk
+      all_goals first
+        | exact (consist_wf _ _ _ _ _ _ vs).2.2.2.1
+        | exact (freshB_sound 1 _ (by decide)).1
+    · intro k hk
+      kid_cases hk
+      all_goals first
+        | exact (consist_wf _ _ _ _ _ _ vs).2.2.2.2
+        | exact (freshB_sound 1 _ (by decide)).2
 
 /-- every simulation's `step()` is  solve → save → advance,  and every `walk…` saves exactly once in
     front of its loop -/
@@ -196,5 +210,271 @@ theorem drivers_canonical :
 
 /-- `SpeedLimitTrainSimVec::set_save_interval` forwards to every element exactly once -/
 theorem sim_vec_forwards : simVecSetCalls = 1 := by decide
+
+/-- every constructor `…::new(…, save_interval)` leaves the object exactly as a top-level
+    `set_save_interval(save_interval)` on the fresh shape does (it cascades to every nested object) -/
+theorem new_is_cascade (kind : Kind) (vs : List Variant) (n : Option Nat) :
+    newT (newProg kind) n (shape kind vs) = setT 1 [] n (shape kind vs) := by
+  cases kind <;> rfl
+
+/-- `save_interval = Some(0)`: the first `save_state()` of every kind of simulation reaches a gate that
+    computes `i % 0` — a panic (outside the property's "None, 1, n") -/
+theorem zero_interval_panics (kind : Kind) (vs : List Variant) (k : Nat) (fail : Bool) :
+    walkR (stepOrder kind) (walkInitSaves kind) k fail (newT (newProg kind) (some 0) (shape kind vs))
+      = .panic "remainder by zero" := by
+  have h : savePanics 1 (newT (newProg kind) (some 0) (shape kind vs)) = true := by cases kind <;> rfl
+  rw [drivers_canonical.2.1 kind]
+  simp only [walkR, savesR, Res.bind, saveR, h, if_true]
+
+/-! ## Part C — the drivers -/
+
+/-- solve → save → advance -/
+def canonical : List Phase := [.solve, .save, .advance]
+
+theorem WF_step {t : Tree} (w : WF t) : WF (stepT 1 t) := by
+  have h := stepT_static 1 t
+  exact ⟨by rw [h.1]; exact w.1, by rw [h.2.1]; exact w.2.1, by rw [h.2.2.1]; exact w.2.2⟩
+
+theorem WF_save {t : Tree} (w : WF t) : WF (saveT 1 t) := by
+  have h := saveT_static 1 t
+  exact ⟨by rw [h.1]; exact w.1, by rw [h.2.1]; exact w.2.1, by rw [h.2.2]; exact w.2.2⟩
+
+theorem WF_set {t : Tree} (v : Option Nat) (w : WF t) : WF (setT 1 [] v t) := by
+  have h := setT_static 1 [] v t
+  exact ⟨by rw [h.1]; exact w.1, by rw [h.2.1]; exact w.2.1, by rw [h.2.2.1]; exact w.2.2⟩
+
+/-- one successful `step()`: the row `c` is written iff `c % n = 0`, then every counter becomes `c + 1` -/
+theorem iterOk_canonical (t : Tree) (c : Nat) (n : Option Nat) (h : List Nat) (w : WF t) (hn : n ≠ some 0)
+    (ha : Aligned c n h t) :
+    iterOk canonical t = .ok (stepT 1 (saveT 1 t)) ∧
+    Aligned (c + 1) n (h ++ if gateOpen n c then [c] else []) (stepT 1 (saveT 1 t)) ∧
+    WF (stepT 1 (saveT 1 t)) := by
+  refine ⟨?_, ?_, WF_step (WF_save w)⟩
+  · simp only [canonical, iterOk, saveR_ok t c n h hn ha, Res.bind]
+  · exact C19_step_preserves_aligned _ _ _ _ (WF_save w).1 (C19_save_preserves_aligned t c n h w.2.1 ha)
+
+/-- a `step()` whose `solve_step` fails saves nothing, advances nothing: the object is unchanged -/
+def C19_failing_step_changes_nothing_statement : Prop := ∀ t : Tree, iterFail canonical t = .ok t
+
+theorem C19_failing_step_changes_nothing : C19_failing_step_changes_nothing_statement := fun _ => rfl
+
+theorem stepsR_canonical (k : Nat) (t : Tree) (c : Nat) (n : Option Nat) (h : List Nat) (w : WF t)
+    (hn : n ≠ some 0) (ha : Aligned c n h t) :
+    ∃ t', stepsR canonical k t = .ok t' ∧ Aligned (c + k) n (h ++ rows n c k) t' ∧ WF t' := by
+  induction k with
+  | zero => exact ⟨t, rfl, by simpa [rows] using ha, w⟩
+  | succ k ih =>
+    obtain ⟨t1, e1, a1, w1⟩ := ih
+    obtain ⟨e2, a2, w2⟩ := iterOk_canonical t1 (c + k) n _ w1 hn a1
+    refine ⟨_, by simp only [stepsR, e1, Res.bind, e2], ?_, w2⟩
+    rw [rows_succ, ← List.append_assoc]
+    exact a2
+
+theorem savesR_aligned (s : Nat) (t : Tree) (c : Nat) (n : Option Nat) (h : List Nat) (w : WF t)
+    (hn : n ≠ some 0) (ha : Aligned c n h t) :
+    ∃ t' h', savesR s t = .ok t' ∧ Aligned c n h' t' ∧ WF t' := by
+  induction s with
+  | zero => exact ⟨t, h, rfl, ha, w⟩
+  | succ s ih =>
+    obtain ⟨t1, h1, e1, a1, w1⟩ := ih
+    exact ⟨_, _, by simp only [savesR, e1, Res.bind, saveR_ok t1 c n h1 hn a1],
+      C19_save_preserves_aligned t1 c n h1 w1.2.1 a1, WF_save w1⟩
+
+/-- `walk` from an aligned object whose counters are `c`: one initial save, `k` good steps, then
+    possibly one failing step -/
+theorem walkR_canonical (k : Nat) (fail : Bool) (t : Tree) (c : Nat) (n : Option Nat) (h : List Nat)
+    (w : WF t) (hn : n ≠ some 0) (ha : Aligned c n h t) :
+    ∃ t', walkR canonical 1 k fail t = .ok t' ∧
+      Aligned (c + k) n (h ++ (if gateOpen n c then [c] else []) ++ rows n c k) t' ∧ WF t' := by
+  have a0 := C19_save_preserves_aligned t c n h w.2.1 ha
+  obtain ⟨t2, e2, a2, w2⟩ := stepsR_canonical k (saveT 1 t) c n _ (WF_save w) hn a0
+  refine ⟨t2, ?_, a2, w2⟩
+  simp only [walkR, savesR, Res.bind, saveR_ok t c n h hn ha, e2]
+  cases fail
+  · rfl
+  · exact C19_failing_step_changes_nothing t2
+
+/-- the i-column every history must have after `k` executed steps of a fresh simulation:
+    the initial state (row `1`) only when every step is saved, then the executed steps `j ≤ k` with
+    `j % n = 0`; the row written after executed step `j` carries `i = j` -/
+def expectedRows : Option Nat → Nat → List Nat
+  | none, _ => []
+  | some n, k => (if n = 1 then [1] else []) ++ (List.range' 1 k).filter (fun j => j % n = 0)
+
+theorem expectedRows_eq (n : Option Nat) (k : Nat) (hn : n ≠ some 0) :
+    ([] ++ (if gateOpen n 1 then [1] else []) ++ rows n 1 k) = expectedRows n k := by
+  cases n with
+  | none => simp [expectedRows, rows_none, gateOpen]
+  | some j =>
+    have hj : j ≠ 0 := fun e => hn (by rw [e])
+    rw [rows_some j 1 k hj, gateOpen_some j 1 hj]
+    simp only [expectedRows, List.nil_append]
+    congr 1
+    by_cases h1 : j = 1
+    · subst h1; simp
+    · have : 1 % j ≠ 0 := by
+        intro e
+        have := Nat.dvd_of_mod_eq_zero e
+        exact h1 (Nat.dvd_one.1 this)
+      simp [h1, this]
+
+/-- the fresh object of every kind and composition, as `new(…, n)` leaves it: aligned at counter 1, no rows -/
+theorem new_aligned (kind : Kind) (vs : List Variant) (n : Option Nat) :
+    Aligned 1 n [] (newT (newProg kind) n (shape kind vs)) ∧ WF (newT (newProg kind) n (shape kind vs)) := by
+  rw [new_is_cascade]
+  obtain ⟨w, a, d⟩ := shape_wf kind vs
+  exact ⟨⟨setT_keeps (fun _ _ _ _ _ x => x) 1 [] n _ a, setT_PV n _ 1 [] w.2.2,
+    setT_keeps (fun _ _ _ _ _ x => x) 1 [] n _ d⟩, WF_set n w⟩
+
+/-- **C19, walks.**  For every simulation kind (locomotive, consist, set-speed, speed-limited), every
+    consist composition, every interval `None | Some n` with `n ≥ 1`, every number `k` of executed steps,
+    whether or not the walk then ends with an error: the walk does not panic and afterwards every step
+    counter in the tree is `k + 1`, every `save_interval` is the one given to the constructor, and every
+    history has exactly the i-column `expectedRows n k`. -/
+def C19_walk_statement : Prop :=
+  ∀ (kind : Kind) (vs : List Variant) (n : Option Nat) (k : Nat) (fail : Bool),
+    n ≠ some 0 →    -- forced: `zero_interval_panics`
+    ∃ t', walkR (stepOrder kind) (walkInitSaves kind) k fail (newT (newProg kind) n (shape kind vs)) = .ok t' ∧
+      Aligned (k + 1) n (expectedRows n k) t'
+
+theorem C19_walk : C19_walk_statement := by
+  intro kind vs n k fail hn
+  obtain ⟨a, w⟩ := new_aligned kind vs n
+  obtain ⟨t', e, a', _⟩ := walkR_canonical k fail _ 1 n [] w hn a
+  refine ⟨t', ?_, ?_⟩
+  · rw [drivers_canonical.1 kind, drivers_canonical.2.1 kind]; exact e
+  · rw [expectedRows_eq n k hn, Nat.add_comm] at a'; exact a'
+
+/-- the same for `SpeedLimitTrainSim::walk_timed_path` -/
+def C19_walk_timed_path_statement : Prop :=
+  ∀ (vs : List Variant) (n : Option Nat) (k : Nat) (fail : Bool), n ≠ some 0 →
+    ∃ s t', timedInitSaves .speedLimit = some s ∧
+      walkR (stepOrder .speedLimit) s k fail (newT (newProg .speedLimit) n (shape .speedLimit vs)) = .ok t' ∧
+      Aligned (k + 1) n (expectedRows n k) t'
+
+theorem C19_walk_timed_path : C19_walk_timed_path_statement := by
+  intro vs n k fail hn
+  obtain ⟨a, w⟩ := new_aligned .speedLimit vs n
+  obtain ⟨t', e, a', _⟩ := walkR_canonical k fail _ 1 n [] w hn a
+  refine ⟨1, t', drivers_canonical.2.2, ?_, ?_⟩
+  · rw [drivers_canonical.1 .speedLimit]; exact e
+  · rw [expectedRows_eq n k hn, Nat.add_comm] at a'; exact a'
+
+/-- **the count formula of the property**: number of rows = number of executed steps whose index is a
+    multiple of the interval, plus the initial state when every step is saved; nothing with `None` -/
+def C19_row_count_statement : Prop :=
+  (∀ k, (expectedRows none k).length = 0) ∧
+  (∀ n k, 0 < n → (expectedRows (some n) k).length = (if n = 1 then 1 else 0) + k / n)
+
+theorem C19_row_count : C19_row_count_statement := by
+  refine ⟨fun _ => rfl, fun n k hn => ?_⟩
+  simp only [expectedRows, List.length_append, count_multiples n k hn]
+  split <;> rfl
+
+theorem walkR_fail_eq (s k : Nat) (t : Tree) : walkR canonical s k true t = walkR canonical s k false t := by
+  simp only [walkR]
+  cases savesR s t with
+  | ok t3 =>
+    simp only [Res.bind]
+    cases stepsR canonical k t3 with
+    | ok t4 => simp only [if_true]; exact C19_failing_step_changes_nothing t4
+    | err _ => rfl
+    | panic _ => rfl
+  | err _ => rfl
+  | panic _ => rfl
+
+/-- a walk that ends with an error after `k` executed steps leaves exactly what a complete walk of `k`
+    steps leaves: the failing step saved nothing and earlier rows are intact (no hypothesis needed) -/
+def C19_error_keeps_rows_statement : Prop :=
+  ∀ (kind : Kind) (vs : List Variant) (n : Option Nat) (k : Nat),
+    walkR (stepOrder kind) (walkInitSaves kind) k true (newT (newProg kind) n (shape kind vs)) =
+    walkR (stepOrder kind) (walkInitSaves kind) k false (newT (newProg kind) n (shape kind vs))
+
+theorem C19_error_keeps_rows : C19_error_keeps_rows_statement := by
+  intro kind vs n k
+  rw [drivers_canonical.1 kind]
+  exact walkR_fail_eq _ k _
+
+/-- **C19, any usage.**  Any script of user operations on a simulation of any kind and composition —
+    manual `step()`s, failing `step()`s, `set_save_interval` with any value other than `Some(0)` in
+    between, `walk`s with or without a final error — never panics and leaves the whole tree aligned:
+    all counters equal, all intervals equal, all histories equal as lists of step indices. -/
+def opOk : Op → Prop
+  | .set v => v ≠ some 0
+  | _ => True
+
+theorem runR_aligned : ∀ (ops : List Op) (t : Tree) (c : Nat) (n : Option Nat) (h : List Nat),
+    WF t → n ≠ some 0 → Aligned c n h t → (∀ o ∈ ops, opOk o) →
+    ∃ t' c' n' h', runR canonical ops t = .ok t' ∧ Aligned c' n' h' t'
+  | [], t, c, n, h, _, _, ha, _ => ⟨t, c, n, h, rfl, ha⟩
+  | o :: os, t, c, n, h, w, hn, ha, hok => by
+    have hos : ∀ o ∈ os, opOk o := fun o ho => hok o (List.mem_cons_of_mem _ ho)
+    have ho : opOk o := hok o (List.mem_cons_self ..)
+    cases o with
+    | set v =>
+      obtain ⟨t', r⟩ := runR_aligned os (setT 1 [] v t) c v h (WF_set v w) ho
+        ((C19_set_interval_reaches_all t v w.2.2).2 c n h ha) hos
+      exact ⟨t', by simpa only [runR, opR, Res.bind] using r⟩
+    | step =>
+      obtain ⟨e, a, w'⟩ := iterOk_canonical t c n h w hn ha
+      obtain ⟨t', r⟩ := runR_aligned os _ _ n _ w' hn a hos
+      exact ⟨t', by simpa only [runR, opR, e, Res.bind] using r⟩
+    | stepFail =>
+      obtain ⟨t', r⟩ := runR_aligned os t c n h w hn ha hos
+      exact ⟨t', by simpa only [runR, opR, C19_failing_step_changes_nothing t, Res.bind] using r⟩
+    | walk s k f =>
+      obtain ⟨t1, h1, e1, a1, w1⟩ := savesR_aligned s t c n h w hn ha
+      obtain ⟨t2, e2, a2, w2⟩ := stepsR_canonical k t1 c n h1 w1 hn a1
+      obtain ⟨t', r⟩ := runR_aligned os t2 _ n _ w2 hn a2 hos
+      refine ⟨t', ?_⟩
+      have : opR canonical t (.walk s k f) = .ok t2 := by
+        simp only [opR, walkR, e1, Res.bind, e2]
+        cases f
+        · rfl
+        · exact C19_failing_step_changes_nothing t2
+      simpa only [runR, this, Res.bind] using r
+
+def C19_any_script_aligned_statement : Prop :=
+  ∀ (kind : Kind) (vs : List Variant) (n : Option Nat) (ops : List Op),
+    n ≠ some 0 → (∀ o ∈ ops, opOk o) →
+    ∃ t' c' n' h', runR (stepOrder kind) ops (newT (newProg kind) n (shape kind vs)) = .ok t' ∧
+      Aligned c' n' h' t'
+
+theorem C19_any_script_aligned : C19_any_script_aligned_statement := by
+  intro kind vs n ops hn hok
+  obtain ⟨a, w⟩ := new_aligned kind vs n
+  rw [drivers_canonical.1 kind]
+  exact runR_aligned ops _ 1 n [] w hn a hok
+
+/-! ## non-vacuity: the statements instantiated on concrete simulations -/
+
+/-- i-columns of all histories in the tree -/
+def cols (r : Res Tree) : List (List Nat) :=
+  match r with
+  | .ok t => (nodes t).filterMap (fun x => if x.1.hasHist then some x.2.2.2 else none)
+  | _ => []
+
+/-- speed-limited train, consist [conventional, battery, hybrid], interval 3, 7 steps then an error:
+    15 histories, each `[3, 6]` -/
+example :
+    cols (walkR (stepOrder .speedLimit) (walkInitSaves .speedLimit) 7 true
+      (newT (newProg .speedLimit) (some 3) (shape .speedLimit [.ConventionalLoco, .BatteryElectricLoco, .HybridLoco])))
+      = List.replicate 15 [3, 6] := by decide +kernel
+
+/-- locomotive simulation, interval 1, 4 steps: the initial row and steps 1..4 -/
+example :
+    cols (walkR (stepOrder .loco) (walkInitSaves .loco) 4 false (newT (newProg .loco) (some 1) (shape .loco [.ConventionalLoco])))
+      = List.replicate 4 [1, 1, 2, 3, 4] := by decide +kernel
+
+example : expectedRows (some 1) 4 = [1, 1, 2, 3, 4] ∧ expectedRows (some 3) 7 = [3, 6] ∧ expectedRows none 9 = [] := by decide +kernel
+
+/-- a script with an interval change in the middle keeps 9 histories equal -/
+example :
+    cols (runR (stepOrder .setSpeed) [.step, .step, .set (some 2), .stepFail, .step, .walk 1 3 true]
+      (newT (newProg .setSpeed) (some 7) (shape .setSpeed [.BatteryElectricLoco, .DummyLoco])))
+      = List.replicate 6 [4, 4, 6] := by decide +kernel
+
+/-- the hypotheses of the Part A theorems hold of a concrete generated shape -/
+example : WF (shape .speedLimit [.ConventionalLoco, .HybridLoco]) := ⟨by decide, by decide, by decide⟩
 
 end Altrios.Proofs.C19
